@@ -25,7 +25,7 @@ LEVEL = "exploration"
 RULE = ("scenario = (supported list, preferred, api) x server answer kind x answer instant around the timeout x 0..3 distractors "
         "x optional duplicate answer; non-trivial = the answer was not simply 'proposed version, immediately' (mismatch, counter-proposal, "
         "malformed, error, silence, boundary timing, distractor or duplicate)")
-PROBES = ["write_stream_backpressure", "reconnect_same_client", "through_real_stdio_client", "answer_exactly_at_timeout", "counter_proposal_accepted", "mismatch_rejected", "malformed_answer", "error_answer",
+PROBES = ["write_channel_broken_after_request", "concurrent_second_handshake", "write_stream_backpressure", "reconnect_same_client", "through_real_stdio_client", "answer_exactly_at_timeout", "counter_proposal_accepted", "mismatch_rejected", "malformed_answer", "error_answer",
           "silence", "duplicate_answer", "preferred_not_in_list", "invented_version_accepted"]
 TIERS = {"quick": {"runs": 30000, "wall": 45.0}, "thorough": {"runs": 3000000, "wall": 560.0}}
 ASSUMPTIONS = [
@@ -82,9 +82,19 @@ def generate(rng: random.Random, tier: str) -> dict:
     dup = None
     if rng.random() < 0.25 and kind != "silence":
         dup = {"dt": rng.choice([0, 0, 1, 5, 100]), "kind": rng.choice(["proposed", "unsupported", "other_supported"]), "pick": rng.randrange(0, 8)}
+    scn = _gen_tail(rng, supported, preferred, timeout, ans, events, dup)
+    if scn["concurrent"] and ans["kind"] in ("unsupported", "wellformed_unknown") and isinstance(ans.get("version"), str) and rng.random() < 0.8:
+        scn["concurrent"]["supported"] = [ans["version"]]
+    return scn
+
+
+def _gen_tail(rng, supported, preferred, timeout, ans, events, dup):
     return {"v": 1, "api": rng.choice(["send_initialize", "tracking", "tracking", "stdio"]), "supported": supported, "preferred": preferred,
             "timeout": timeout, "uuid_seed": rng.getrandbits(40), "mode": rng.choice(["parse_message", "model_validate"]),
             "pre_version": rng.choice([None, None, "2025-06-18", "2024-11-05"]),
+            "break_write_after_request": rng.random() < 0.06,
+            "concurrent": ({"start": rng.choice([0, 1, 5]), "supported": [rng.choice(REAL + INVENTED[:6])], "answer_dt": rng.choice([1, 30, 400])}
+                           if rng.random() < 0.12 else None),
             "reconnect": ({"versions": [rng.choice(REAL) for _ in range(rng.choice([2, 2, 3]))]} if rng.random() < 0.05 else None),
             "slow_reader": ({"wbuf": rng.choice([0, 0, 1]), "delays": [rng.choice([0, 0, 3]), rng.choice([0, 10, 450, 1300])]} if rng.random() < 0.15 else None),
             "answer": ans, "dup": dup, "events": events}
@@ -95,6 +105,10 @@ def simplify(scn):
         c = copy.deepcopy(scn); c["slow_reader"] = None; yield c
     if scn.get("reconnect"):
         c = copy.deepcopy(scn); c["reconnect"] = None; yield c
+    if scn.get("concurrent"):
+        c = copy.deepcopy(scn); c["concurrent"] = None; yield c
+    if scn.get("break_write_after_request"):
+        c = copy.deepcopy(scn); c["break_write_after_request"] = False; yield c
     if scn["dup"]:
         c = copy.deepcopy(scn); c["dup"] = None; yield c
     if scn["preferred"] is not None:
@@ -456,6 +470,40 @@ def _execute_raw(scn: dict) -> dict:
                     ddata = {"jsonrpc": "2.0", "id": rid, "result": {"protocolVersion": version_for(dk, dd["pick"]), "capabilities": {}, "serverInfo": {"name": "dup", "version": "2"}}}
                 sim.at(ticks(ans["t"] + dd["dt"]), deliver, "dup:" + dk, ddata, tie=2, hops=ans["hops"] + 1)
 
+        if scn.get("break_write_after_request") and not sr:
+            # the peer reads the initialize request and then its end of the client's write channel goes away
+            async def breaker():
+                try:
+                    await from_client_recv.receive()
+                except Exception:
+                    return
+                st["wire_broken_eseq"] = sim.rec("peer", "write-channel-broken", None)
+                from_client_recv.close()
+            asyncio.get_running_loop().create_task(breaker(), name="wire-breaker")
+            sim.fault("write_channel_broken_after_request")
+        cc = scn.get("concurrent")
+        if cc:
+            # an unrelated second handshake in the same process (own streams, own supported list), in flight at the same time
+            async def other_handshake():
+                o_to_send, o_to_recv = anyio.create_memory_object_stream(10)
+                o_from_send, o_from_recv = anyio.create_memory_object_stream(10)
+                await anyio.sleep(ticks(cc["start"]))
+
+                async def other_server():
+                    req = await o_from_recv.receive()
+                    await anyio.sleep(ticks(cc["answer_dt"]))
+                    d = dump(req)
+                    o_to_send.send_nowait(build_inbound("parse_message", {"jsonrpc": "2.0", "id": d["id"], "result": {
+                        "protocolVersion": d["params"]["protocolVersion"], "capabilities": {}, "serverInfo": {"name": "other", "version": "1"}}}))
+                    with anyio.move_on_after(1.0):
+                        await o_from_recv.receive()
+                asyncio.get_running_loop().create_task(other_server(), name="other-server")
+                try:
+                    r2 = await ini.send_initialize(o_to_recv, o_from_send, timeout=10.0, supported_versions=list(cc["supported"]))
+                    st["other_outcome"] = ("ok", str(r2.protocolVersion))
+                except BaseException as e2:  # noqa
+                    st["other_outcome"] = ("raise", repr(e2)[:80])
+            asyncio.get_running_loop().create_task(other_handshake(), name="other-handshake")
         client = None
         if scn["api"] == "tracking":
             client = StdioClient(StdioParameters(command="sim-server", args=[]))
@@ -554,6 +602,17 @@ def _execute_raw(scn: dict) -> dict:
         verdicts.append(("silence",))
         if edge is not None:
             verdicts.append(judge(edge))
+
+    broken = st.get("wire_broken_eseq")
+    if broken is not None and any(vd[0] == "success" for vd in verdicts):
+        # the answer is fine but the initialized notification cannot be delivered any more: success is impossible
+        verdicts = [("wire-broken",) if vd[0] == "success" else vd for vd in verdicts]
+        probe("write_channel_broken_after_request")
+    if scn.get("concurrent") and "other_outcome" in st:
+        probe("concurrent_second_handshake")
+        oo = st["other_outcome"]
+        if not (oo[0] == "ok" and oo[1] == scn["concurrent"]["supported"][0]):
+            V("concurrent", "other-handshake-disturbed", f"the unrelated concurrent handshake (supports {scn['concurrent']['supported']}, echoing server) ended with {oo!r}")
 
     def outcome_matches(vd):
         if vd[0] == "success":
